@@ -105,5 +105,8 @@ package random
 //@ ensures [resume-stream] len(stateBytes) == 52 ==> result0.core.cipher.sid == chachaStream(result0.core.seed[:], result0.core.customizer[:])
 //@ ensures [resume-zero] len(stateBytes) == 52 ==> forall(k, 0, 64, result0.core.emptyMessage[k] == 0)
 
+// Seen from another package a Rand is opaque: its representation (unexported fields, the core it points to)
+// cannot be observed there, so its state change is abstracted as ghost state of the interface value.
+//@ ghost field Rand.state int
 //@ func (Rand).Read
-//@ assigns arg0[:], obj(self)
+//@ assigns arg0[:], ghost(self)
